@@ -128,8 +128,8 @@ fn vec_try_reserve_under_refusal(args: &Args, rep: &mut Report) {
         let exact = rng.chance(1, 2);
         let by_limit = rng.chance(1, 3);
         rep.ctx = format!("C09 vec try_reserve case {} cap {} len {} exact {} by_limit {} (seed {} shard {})", case, cap, len, exact, by_limit, args.seed, args.shard);
-        let neighbour = rng.chance(2, 3);
-        let fill_chunk = rng.chance(1, 2);
+        let neighbour = rng.chance(1, 2);
+        let fill_chunk = rng.chance(1, 3);
         if by_limit {
             arena.set_allocation_limit(Some(arena.allocated_bytes().max(1)));
         }
@@ -138,6 +138,17 @@ fn vec_try_reserve_under_refusal(args: &Args, rep: &mut Report) {
             let mut v: BVec<u32> = BVec::new_in(a);
             // building may itself need memory: no fault yet
             a.set_allocation_limit(None);
+            // sometimes the chunk is filled first so that, with the vector as the newest block, only a
+            // little room is left behind it (less than doubling needs, enough for small extensions)
+            let tight = rng.chance(1, 2);
+            if tight {
+                let _ = a.alloc(0u32); // make sure there is a chunk
+                let want_room = cap * 4 + rng.below(cap * 4 + 9);
+                let room = a.chunk_capacity();
+                if room > want_room && room < (1 << 16) {
+                    a.alloc_slice_fill_copy(room - want_room, 0x11u8);
+                }
+            }
             v.reserve_exact(cap);
             for i in 0..len {
                 v.push(i as u32 * 7 + 1);
